@@ -446,7 +446,7 @@ fn common(ctx: &Ctx, property: &'static str, rule: &str, floors: &[(&str, u64)],
     rep.assume("reference model executes the documented meaning (docs comments of rbx_dom_weak::WeakDom) and learns fresh referents / regenerated ids from the real DOM by structural correspondence");
     let sub = crate::engine::replay_subcheck_or_all(ctx);
     if sub.runs("histories") {
-        let cases = ctx.cfg.cases(50_000, 600_000);
+        let cases = ctx.cfg.cases(50_000, 300_000);
         let max_ops = ctx.cfg.tier.pick(25, 60);
         let mut r = ctx.run_prop(
             "histories",
@@ -461,7 +461,7 @@ fn common(ctx: &Ctx, property: &'static str, rule: &str, floors: &[(&str, u64)],
     }
     if sub.runs("exhaustive") {
         let len = ctx.cfg.tier.pick(2, 3);
-        let nodes = ctx.cfg.tier.pick(4, 4);
+        let nodes = ctx.cfg.tier.pick(4, 3);
         let cases = if ctx.cfg.replay.is_some() { vec![] } else { enumerate_histories(len, nodes) };
         let mut r: SubReport = ctx.run_list("exhaustive", cases, true, body_for(property));
         r.notes.push(format!(
